@@ -153,14 +153,25 @@ def _events(args):
             step = rnd.choice([1, 5, 10])
             rs = rnd.choice([0, 1, 7, 12345])
             one_shot = rnd.random() < 0.4
+            bare = rnd.random() < 0.5
 
             def write():
                 buf = io.StringIO()
                 # the collections are an Iterable: a list, or something that can be walked only once
                 colls = [coll] if one_shot is False else (c for c in [coll])
-                collection_to_tbl(colls, buf, translation_table=TranslationTable(table), locus_tag_prefix="PFX",
-                                  genbank_flavor=GenbankFlavor[flavour], locus_tag_jump_size=step,
-                                  submitter_lab_name="LAB", random_seed=rs)
+                # (documented defaults -- the default table, the eukaryotic flavour, a step of 5 -- are left out when they
+                # are what is asked for and `bare` says so)
+                kw = dict(translation_table=TranslationTable(table), locus_tag_prefix="PFX",
+                          genbank_flavor=GenbankFlavor[flavour], locus_tag_jump_size=step, submitter_lab_name="LAB",
+                          random_seed=rs)
+                if bare:
+                    if table == 0:
+                        kw.pop("translation_table")
+                    if flavour == "EUKARYOTIC":
+                        kw.pop("genbank_flavor")
+                    if step == 5:
+                        kw.pop("locus_tag_jump_size")
+                collection_to_tbl(colls, buf, **kw)
                 return buf.getvalue()
 
             try:
